@@ -177,6 +177,11 @@ def rule_update(ctx, R, fu, parallel=False):
     ctx.ob(R, f"{mod}::{qn}::causes-overloading", ok and lim,
            "causes_overloading is set for (cause_element, cause_index) iff some value exceeds the limit column of the affected table"
            if ok and lim else "causes_overloading attribution not recognised", fu.loc())
+    # the N-1 limit column is tested on the table it is read from
+    from rules import _lints
+    n_g = _lints.same_table_guard(ctx, R, fu, "max_loading_percent_nminus1")
+    if n_g < 1:
+        ctx.fail(f"{qn}: guarded read of max_loading_percent_nminus1 not found")
     # N-0 branch writes plain values
     ok = any(isinstance(n, ast.Assign) and ast.unparse(n.targets[0]) == "contingency_results[element][var]" and ast.unparse(n.value) == "val"
              for n in ast.walk(fu.node))
